@@ -67,14 +67,15 @@ type Op struct {
 }
 
 type Case struct {
-	Comp      string     `json:"comp"` // gzip | zstd
-	ChunkSize int        `json:"chunk_size"`
-	MinChunk  int        `json:"min_chunk"`
-	DirCache  bool       `json:"dir_cache,omitempty"` // directory chunk cache (2-entry memory LRU, SyncAdd) instead of the memory cache
-	Direct    bool       `json:"direct,omitempty"`    // directory cache in direct mode (what FUSE passthrough requires): enables "pass" ops
-	Files     []FileSpec `json:"files"`
-	Cors      []Cor      `json:"cors"`
-	Ops       []Op       `json:"ops"`
+	Comp       string     `json:"comp"` // gzip | zstd
+	ChunkSize  int        `json:"chunk_size"`
+	MinChunk   int        `json:"min_chunk"`
+	DirCache   bool       `json:"dir_cache,omitempty"`   // directory chunk cache (2-entry memory LRU, SyncAdd) instead of the memory cache
+	StartClean bool       `json:"start_clean,omitempty"` // the registry first serves the unaltered blob; "switch" ops toggle to the altered one and back
+	Direct     bool       `json:"direct,omitempty"`      // directory cache in direct mode (what FUSE passthrough requires): enables "pass" ops
+	Files      []FileSpec `json:"files"`
+	Cors       []Cor      `json:"cors"`
+	Ops        []Op       `json:"ops"`
 }
 
 // ---------------------------------------------------------------------------------------------
@@ -623,6 +624,31 @@ type inflight struct {
 	pendID  int
 }
 
+// switchRA is what the registry serves for the layer blob right now (blob Refresh / mirror change): one of two byte strings.
+type switchRA struct {
+	blobs [2][]byte
+	cur   int
+}
+
+func (s *switchRA) ReadAt(p []byte, off int64) (int, error) {
+	return bytes.NewReader(s.blobs[s.cur]).ReadAt(p, off)
+}
+
+// tocFileDigest: sha256 of the whole TOC file of a blob (gzip: extracted without the estargz package).
+func tocFileDigest(blob []byte, comp string) (digest.Digest, bool) {
+	if comp == "gzip" {
+		if js, _, ok := extractGzipTOC(blob); ok {
+			return digest.FromBytes(js), true
+		}
+		return "", false
+	}
+	er, err := openEstargz(blob, comp)
+	if err != nil {
+		return "", false
+	}
+	return er.TOCDigest(), true
+}
+
 // ---------------------------------------------------------------------------------------------
 // a remote.Blob over the in-memory blob (layer level)
 
@@ -665,22 +691,26 @@ type problem struct {
 }
 
 type world struct {
-	c        Case
-	files    []uint32      // metadata ids of c.Files
-	tabs     [][]chunkInfo // TOC of the blob actually opened
-	origTabs [][]chunkInfo
-	digIDs   map[string]int
-	rec      *recorder
-	mr       metadata.Reader
-	mc       *cache.MemoryCache // nil with the directory cache
-	bc       cache.BlobCache
-	gc       *gateCache
-	flights  []*inflight // prefetch goroutines stopped at a gate, in start order
-	pend     []*inflight // those whose verification step is done and whose Commit is outstanding (model: s_pend)
-	vr       *reader.VerifiableReader
-	l        layer.Layer
-	rd       reader.Reader
-	oracleMR metadata.Reader
+	c                             Case
+	files                         []uint32      // metadata ids of c.Files
+	tabs                          [][]chunkInfo // TOC of the blob actually opened
+	origTabs                      [][]chunkInfo
+	digIDs                        map[string]int
+	rec                           *recorder
+	mr                            metadata.Reader
+	mc                            *cache.MemoryCache // nil with the directory cache
+	bc                            cache.BlobCache
+	sw                            *switchRA
+	canSwitch                     bool
+	cleanBlob, badBlob, otherBlob []byte
+	streamDigest                  digest.Digest
+	gc                            *gateCache
+	flights                       []*inflight // prefetch goroutines stopped at a gate, in start order
+	pend                          []*inflight // those whose verification step is done and whose Commit is outstanding (model: s_pend)
+	vr                            *reader.VerifiableReader
+	l                             layer.Layer
+	rd                            reader.Reader
+	oracleMR                      metadata.Reader
 
 	dOrig, dActual digest.Digest
 
@@ -935,9 +965,10 @@ func (w *world) resume(n int, emit func(string, Out)) {
 }
 
 // prefetchOne does what cacheWithReader does for one chunk, through the real readAndCache.
-func (w *world) prefetchOne(f, i int) error {
+func (w *world) prefetchOne(f, i int) error { return w.prefetchOneWith(w.vr.Metadata(), f, i) }
+
+func (w *world) prefetchOneWith(mr metadata.Reader, f, i int) error {
 	id := w.files[f]
-	mr := w.vr.Metadata()
 	fr, err := mr.OpenFileWithPreReader(id, func(nid uint32, off, size int64, dg string, r io.Reader) error {
 		return w.vr.VerifReadAndCacheC01(nid, r, off, size, dg)
 	})
@@ -953,8 +984,12 @@ func (w *world) prefetchOne(f, i int) error {
 
 // chunkTruth reads one chunk of the opened blob directly through a second metadata reader (no fs/reader involved).
 func (w *world) chunkTruth(f, i int) (data []byte, readOK bool, good bool) {
+	return w.chunkTruthWith(w.oracleMR, f, i)
+}
+
+func (w *world) chunkTruthWith(omr metadata.Reader, f, i int) (data []byte, readOK bool, good bool) {
 	ci := w.tabs[f][i]
-	fr, err := w.oracleMR.OpenFile(w.files[f])
+	fr, err := omr.OpenFile(w.files[f])
 	if err != nil {
 		return nil, false, false
 	}
@@ -1024,8 +1059,19 @@ func run(c Case) (res result) {
 		res.stats["minchunk"]++
 	}
 
+	w.cleanBlob, w.badBlob = blob, bad
+	w.sw = &switchRA{blobs: [2][]byte{bad, blob}}
+	if dc, ok1 := tocFileDigest(blob, c.Comp); ok1 {
+		if db, ok2 := tocFileDigest(bad, c.Comp); ok2 && dc == db && len(blob) == len(bad) {
+			w.canSwitch = true
+		}
+	}
+	if c.StartClean && w.canSwitch {
+		w.sw.cur = 1
+		res.stats["start.clean"]++
+	}
 	open := func() (metadata.Reader, error) {
-		sr := io.NewSectionReader(bytes.NewReader(bad), 0, int64(len(bad)))
+		sr := io.NewSectionReader(w.sw, 0, int64(len(bad)))
 		var ds []metadata.Decompressor
 		if c.Comp == "zstd" {
 			ds = append(ds, new(zstdchunked.Decompressor))
@@ -1104,6 +1150,7 @@ func run(c Case) (res result) {
 			next = ci.Off + ci.Size
 		}
 	}
+	w.streamDigest = streamDigest
 	tocID := w.digID(streamDigest.String())
 	w.digID(w.dActual.String())
 	w.digID(w.dOrig.String())
@@ -1216,10 +1263,69 @@ func run(c Case) (res result) {
 			// the real Cache() is used when its outcome does not depend on goroutine scheduling: no chunk read error,
 			// and (before the verification decision) or (no chunk fails verification). Otherwise the same chunks are
 			// driven one by one through the real readAndCache in walk order.
+			// With D = same | clean | other the call is Cache(WithReader(sr')) - what layer.backgroundFetch does - where sr'
+			// serves the opened blob again, the unaltered build, or another self-consistent eStargz (other file contents).
+			oracle, pmr, hop := w.oracleMR, w.vr.Metadata(), "HCache "
+			var copts []reader.CacheOption
+			if o.D != "" {
+				var blob2 []byte
+				switch o.D {
+				case "same":
+					blob2 = w.badBlob
+				case "clean":
+					blob2 = w.cleanBlob
+				default:
+					if w.otherBlob == nil {
+						c2 := c
+						c2.Files = nil
+						for _, f := range c.Files {
+							d := append([]byte{}, f.Data...)
+							for j := range d {
+								d[j] ^= 0x03
+							}
+							c2.Files = append(c2.Files, FileSpec{f.Name, d})
+						}
+						w.otherBlob, _, _ = buildBlob(c2)
+					}
+					blob2 = w.otherBlob
+				}
+				d2, ok := tocFileDigest(blob2, c.Comp)
+				if blob2 == nil || !ok || len(w.flights) > 0 {
+					continue
+				}
+				w.stats["op.cachewith."+o.D]++
+				sr2 := io.NewSectionReader(bytes.NewReader(blob2), 0, int64(len(blob2)))
+				copts = append(copts, reader.WithReader(sr2))
+				if theStoreName != "db" {
+					// the memory store's Clone reads the TOC of sr' again
+					hop = fmt.Sprintf("HCacheWith %d%%N ", w.digID(d2.String()))
+					if d2 != w.streamDigest {
+						w.rec.take()
+						err := w.vr.Cache(copts...)
+						if len(w.rec.take()) > 0 {
+							w.stats["cachewith.fetched.through.foreign.toc"]++
+						}
+						if err != nil {
+							w.stats["result.cachewith.refused"]++
+							w.sawErr = true
+						}
+						emit(hop+"[]", Out{Kind: "o", Res: errRes(err)})
+						w.scanCache("after Cache(WithReader(blob with another TOC))")
+						continue
+					}
+				}
+				var err error
+				if oracle, err = w.oracleMR.Clone(sr2); err != nil {
+					continue
+				}
+				if pmr, err = w.vr.Metadata().Clone(sr2); err != nil {
+					continue
+				}
+			}
 			det := len(w.flights) == 0
 			for f := range w.tabs {
 				for i := range w.tabs[f] {
-					_, rok, good := w.chunkTruth(f, i)
+					_, rok, good := w.chunkTruthWith(oracle, f, i)
 					if !rok || (w.decided && !good) {
 						det = false
 					}
@@ -1228,7 +1334,7 @@ func run(c Case) (res result) {
 			if det {
 				w.stats["op.cache.real"]++
 				w.rec.take()
-				err := w.vr.Cache()
+				err := w.vr.Cache(copts...)
 				fs := w.rec.take()
 				items := []string{}
 				seen := map[[2]int]bool{}
@@ -1256,13 +1362,13 @@ func run(c Case) (res result) {
 				if err != nil {
 					w.stats["result.cache.err"]++
 				}
-				emit("HCache "+hx.CoqList(items), Out{Kind: "o", Res: errRes(err)})
+				emit(hop+hx.CoqList(items), Out{Kind: "o", Res: errRes(err)})
 			} else {
 				w.stats["op.cache.stepwise"]++
 				for f := range w.tabs {
 					for i := range w.tabs[f] {
 						w.rec.take()
-						err := w.prefetchOne(f, i)
+						err := w.prefetchOneWith(pmr, f, i)
 						fs := w.rec.take()
 						ft := "None"
 						if len(fs) > 0 {
@@ -1277,6 +1383,24 @@ func run(c Case) (res result) {
 				}
 			}
 			w.scanCache("after Cache")
+		case "switch":
+			// the registry / mirror now serves the other of {altered, unaltered} blob (same length, same TOC file)
+			if !w.canSwitch || len(w.flights) > 0 {
+				continue
+			}
+			w.sw.cur = 1 - w.sw.cur
+			w.stats["op.switch.applied"]++
+		case "evict":
+			// the chunk cache drops an entry (memory cache: delete it)
+			if w.mc == nil || !validChunk(o.F, o.I) || len(w.flights) > 0 {
+				continue
+			}
+			ci := w.tabs[o.F][o.I]
+			if _, ok := w.mc.Membuf[w.cacheKey(o.F, o.I)]; ok {
+				w.stats["op.evict.hit"]++
+			}
+			delete(w.mc.Membuf, w.cacheKey(o.F, o.I))
+			emit(fmt.Sprintf("HAtom (Evict (%d%%N, %s, %s))", w.files[o.F], hx.CoqZ(ci.Off), hx.CoqZ(ci.Size)), Out{Kind: "o", Res: "none"})
 		case "read":
 			if w.rd == nil || o.F < 0 || o.F >= len(w.files) || o.Len < 0 || o.Len > 4096 || o.Off < 0 {
 				continue
@@ -1630,8 +1754,20 @@ func gen(r *hx.Rng) Case {
 		if size > 72 {
 			size = 72
 		}
-		c.Files = append(c.Files, FileSpec{Name: names[i], Data: genData(r, size)})
+		d := genData(r, size)
+		switch r.Pick(8, 2, 1) {
+		case 1: // every chunk of the file has the same content (and so the same chunk digest)
+			for j := range d {
+				d[j] = d[j%c.ChunkSize]
+			}
+		case 2: // a copy of the previous file
+			if i > 0 {
+				d = append([]byte{}, c.Files[i-1].Data...)
+			}
+		}
+		c.Files = append(c.Files, FileSpec{Name: names[i], Data: d})
 	}
+	c.StartClean = r.Chance(1, 4)
 	nchunks := func(f int) int {
 		return max(1, (len(c.Files[f].Data)+c.ChunkSize-1)/c.ChunkSize)
 	}
@@ -1700,7 +1836,7 @@ func gen(r *hx.Rng) Case {
 		if c.Direct {
 			passW = 6
 		}
-		switch r.Pick(3, 1, 3, 1, 4, 2, 8, 2, 3, 2, passW) {
+		switch r.Pick(3, 1, 3, 1, 4, 2, 8, 2, 3, 2, passW, 3, 2, 2) {
 		case 0:
 			c.Ops = append(c.Ops, Op{Op: "vtoc", D: dsel()})
 		case 1:
@@ -1728,6 +1864,13 @@ func gen(r *hx.Rng) Case {
 			cs := int64(c.ChunkSize)
 			buf := []int64{cs - 1, cs, cs + 3, 2 * cs, 2*cs + 1, 3 * cs, 1000}[r.Intn(7)]
 			c.Ops = append(c.Ops, Op{Op: "pass", F: r.Intn(nf), Len: max(buf, 1), I: r.Range(1, 3)})
+		case 11:
+			c.Ops = append(c.Ops, Op{Op: "cache", D: []string{"same", "clean", "other", "other"}[r.Intn(4)]})
+		case 12:
+			c.Ops = append(c.Ops, Op{Op: "switch"})
+		case 13:
+			f, k := pickChunk()
+			c.Ops = append(c.Ops, Op{Op: "evict", F: f, I: k})
 		}
 	}
 	// after whatever failed: re-read everything through the warm cache, then look at the cache
@@ -1906,6 +2049,63 @@ func orderCorpus() []Case {
 	return out
 }
 
+// sourceCorpus: APIs that take a NEW section reader / new registry answers after the layer was opened, identical
+// chunks, re-fetch after eviction, retried verification. Fixed cases.
+func sourceCorpus() []Case {
+	txt := make([]byte, 20)
+	for i := range txt {
+		txt[i] = byte('a' + i%7)
+	}
+	rep := bytes.Repeat([]byte("abcdefgh"), 3)
+	whole := Op{Op: "read", F: 0, Off: 0, Len: 20}
+	var out []Case
+	// Cache(WithReader(sr')) = layer.backgroundFetch: sr' serves the same blob / the unaltered build / another self-consistent eStargz,
+	// before and after the verification (memory store: Clone re-reads the TOC; the other TOC must be refused)
+	for _, src := range []string{"same", "clean", "other"} {
+		for _, altered := range []bool{false, true} {
+			for _, first := range []bool{false, true} {
+				c := Case{Comp: "gzip", ChunkSize: 8, Files: []FileSpec{{"a", txt}}}
+				if altered {
+					c.Cors = []Cor{{Kind: "replace", F: 0, I: 1, Alt: 1}}
+				}
+				if first {
+					c.Ops = []Op{{Op: "cache", D: src}, {Op: "vtoc", D: "orig"}, {Op: "probe", F: 0, I: 1}, whole, {Op: "vtoc", D: "orig"}}
+				} else {
+					c.Ops = []Op{{Op: "vtoc", D: "orig"}, {Op: "cache", D: src}, {Op: "probe", F: 0, I: 0}, {Op: "probe", F: 0, I: 1}, whole}
+				}
+				out = append(out, c)
+			}
+		}
+	}
+	out = append(out, Case{Comp: "zstd", ChunkSize: 8, Files: []FileSpec{{"a", txt}}, Ops: []Op{{Op: "lverify", D: "orig"}, {Op: "cache", D: "other"}, {Op: "probe", F: 0, I: 0}, whole}})
+	// the registry serves the genuine blob first and altered bytes later (Refresh / mirror change): uncached chunk, and re-fetch after eviction
+	out = append(out, Case{Comp: "gzip", ChunkSize: 8, StartClean: true, Files: []FileSpec{{"a", txt}}, Cors: []Cor{{Kind: "replace", F: 0, I: 1, Alt: 1}},
+		Ops: []Op{{Op: "vtoc", D: "orig"}, {Op: "read", F: 0, Off: 0, Len: 8}, {Op: "switch"}, whole, {Op: "probe", F: 0, I: 1}, {Op: "switch"}, whole}})
+	out = append(out, Case{Comp: "gzip", ChunkSize: 8, StartClean: true, Files: []FileSpec{{"a", txt}}, Cors: []Cor{{Kind: "replace", F: 0, I: 1, Alt: 1}},
+		Ops: []Op{{Op: "vtoc", D: "orig"}, whole, {Op: "evict", F: 0, I: 1}, {Op: "switch"}, whole, {Op: "probe", F: 0, I: 1}, {Op: "cache"}, {Op: "pf", F: 0, I: 1}, whole}})
+	out = append(out, Case{Comp: "gzip", ChunkSize: 8, StartClean: true, Files: []FileSpec{{"a", txt}}, Cors: []Cor{{Kind: "replace", F: 0, I: 1, Alt: 1}},
+		Ops: []Op{{Op: "cache"}, {Op: "vtoc", D: "orig"}, {Op: "evict", F: 0, I: 1}, {Op: "switch"}, {Op: "cache"}, {Op: "probe", F: 0, I: 1}, whole}})
+	// chunks with identical content and digest, one of them altered: genuine first, then the altered one (read, prefetch, passthrough)
+	for _, kind := range []string{"read", "pf", "pass"} {
+		c := Case{Comp: "gzip", ChunkSize: 8, Direct: kind == "pass", Files: []FileSpec{{"a", rep}, {"b", rep[:8]}}, Cors: []Cor{{Kind: "replace", F: 0, I: 1, Alt: 1}}}
+		c.Ops = []Op{{Op: "vtoc", D: "orig"}, {Op: "read", F: 1, Off: 0, Len: 8}, {Op: "read", F: 0, Off: 0, Len: 8}}
+		switch kind {
+		case "read":
+			c.Ops = append(c.Ops, Op{Op: "read", F: 0, Off: 8, Len: 8}, Op{Op: "read", F: 0, Off: 16, Len: 8})
+		case "pf":
+			c.Ops = append(c.Ops, Op{Op: "pf", F: 0, I: 1}, Op{Op: "cache"})
+		default:
+			c.Ops = append(c.Ops, Op{Op: "pass", F: 0, Len: 16, I: 2}, Op{Op: "pass", F: 0, Len: 5, I: 1})
+		}
+		c.Ops = append(c.Ops, Op{Op: "probe", F: 0, I: 1}, Op{Op: "read", F: 0, Off: 0, Len: 24})
+		out = append(out, c)
+	}
+	// a failed verification retried on the same reader / layer object, with re-reads in between
+	out = append(out, Case{Comp: "gzip", ChunkSize: 8, Files: []FileSpec{{"a", txt}}, Cors: []Cor{{Kind: "replace", F: 0, I: 1, Alt: 1}},
+		Ops: []Op{{Op: "pf", F: 0, I: 1}, {Op: "lverify", D: "orig"}, {Op: "lverify", D: "orig"}, {Op: "vtoc", D: "orig"}, {Op: "cache"}, {Op: "vtoc", D: "orig"}, {Op: "lskip"}, {Op: "lverify", D: "orig"}, whole}})
+	return out
+}
+
 var (
 	theStore     metadata.Store
 	theStoreName string
@@ -1948,7 +2148,7 @@ func Main(store metadata.Store, name string) {
 		return
 	}
 	n := 0
-	for _, c := range append(append(corpus(), stopCorpus()...), orderCorpus()...) {
+	for _, c := range append(append(append(corpus(), stopCorpus()...), orderCorpus()...), sourceCorpus()...) {
 		emit(c)
 		n++
 	}
